@@ -351,6 +351,7 @@ type qspec struct {
 	opt     bool
 	optsize uint16
 	optopts bool // option-laden OPT (cookie, ECS, padding, DO)
+	optzero bool // advertise a UDP size of 0
 	raw     []byte
 }
 
@@ -373,7 +374,7 @@ func (q qspec) wire() []byte {
 	if q.opt {
 		o := &dns.OPT{Hdr: dns.RR_Header{Name: ".", Rrtype: dns.TypeOPT}}
 		sz := q.optsize
-		if sz == 0 {
+		if sz == 0 && !q.optzero {
 			sz = 1232
 		}
 		o.SetUDPSize(sz)
@@ -390,6 +391,16 @@ func (q qspec) wire() []byte {
 		panic(err)
 	}
 	return w
+}
+
+func (q qspec) effSize() uint16 {
+	if !q.opt {
+		return 0
+	}
+	if q.optsize == 0 && !q.optzero {
+		return 1232
+	}
+	return q.optsize
 }
 
 func mkq(name string) qspec {
@@ -412,7 +423,7 @@ func (in *inst) send(lst, src string, q qspec, wait time.Duration, hdr map[strin
 		srcA, _ = netip.ParseAddr(x)
 	}
 	in.tr.Emit("cl.send", "qn", qn, "lst", lst, "src", addrJS(srcA), "id", int(q.id), "qr", q.qr, "opcode", q.opcode, "rd", q.rd,
-		"nq", q.nq, "name", labelsJS(q.name), "cls", int(q.cls), "typ", int(q.typ), "opt", q.opt, "optsize", int(q.optsize), "optopts", q.optopts, "len", len(w), "mayrefuse", strings.HasPrefix(src, "127.0.1.") && in.name == "c15live")
+		"nq", q.nq, "name", labelsJS(q.name), "cls", int(q.cls), "typ", int(q.typ), "opt", q.opt, "optsize", int(q.effSize()), "optopts", q.optopts, "len", len(w), "mayrefuse", strings.HasPrefix(src, "127.0.1.") && in.name == "c15live")
 	raw, status, err := in.roundTrip(lst, src, w, wait, hdr)
 	if err != nil || raw == nil {
 		e := ""
